@@ -27,6 +27,7 @@ import (
 	"github.com/fatedier/frp/pkg/msg"
 	"github.com/fatedier/frp/pkg/transport"
 	netpkg "github.com/fatedier/frp/pkg/util/net"
+	"github.com/fatedier/frp/pkg/util/verifhook"
 	"github.com/fatedier/frp/pkg/util/wait"
 	"github.com/fatedier/frp/pkg/util/xlog"
 	"github.com/fatedier/frp/pkg/vnet"
@@ -199,6 +200,7 @@ func (ctl *Control) handlePong(m msg.Message) {
 
 // closeSession closes the control connection.
 func (ctl *Control) closeSession() {
+	verifhook.At("cli.session.close", "ctl", verifhook.ID(ctl), "server_port", ctl.sessionCtx.Common.ServerPort)
 	ctl.sessionCtx.Conn.Close()
 	ctl.sessionCtx.Connector.Close()
 }
